@@ -1,9 +1,9 @@
 (* C01: sequential and parallel execution return the same result.
    ONLY property theorems (each closed by `exact`) and non-vacuity examples.
    Quantifiers: every plan in the classified fragment (Engine/Static.v: element-wise chains with
-   arbitrary Coq functions, GroupByKey, per-key combines classic and lifted, global combines with
-   EVERY fan-out, joins whose sides are themselves classified chains, any coherent source incl.
-   streaming ones), every input, every partition count `parts` (0, 1, > len included), every pair
+   arbitrary Coq functions, GroupByKey - also AFTER a step that iterated a hash map (class D) -,
+   per-key combines classic and lifted, global combines with EVERY fan-out, joins whose sides are
+   themselves classified chains, any coherent source incl. streaming ones), every input, every partition count `parts` (0, 1, > len included), every pair
    of HashMap iteration orders `sh` (parallel run) and `sh'` (sequential run). *)
 From Coq Require Import List ZArith Bool Permutation.
 From IB Require Import Engine.Val Engine.Ops Engine.AMap Engine.Nodes Engine.Exec Engine.Planner
@@ -12,7 +12,8 @@ From IB Require Import Engine.Val Engine.Ops Engine.AMap Engine.Nodes Engine.Exe
 Import ListNotations.
 
 (* both modes succeed and return the same rows: the identical sequence for class E (in particular
-   for every element-wise pipeline), the same multiset for class P *)
+   for every element-wise pipeline), the same multiset for class P, the same multiset of grouped
+   rows each with the same multiset of values for class D (rel / row_perm in Engine/Static.v) *)
 Theorem c01_par_equiv_seq : forall sh sh' chain t c parts,
     perm_oracle sh -> perm_oracle sh' -> plan_cls chain t c ->
     exists rp rs, exec_par sh t chain parts = Ok rp /\ exec_seq sh' t chain = Ok rs /\ rel c rp rs.
@@ -36,6 +37,30 @@ Theorem c01_node_partition_independent : forall sh sh' i j t c b t' c' ps qs,
       check_tags t' ps' = true /\ check_tags t' qs' = true /\
       rel c' (concat (map snd ps')) (concat (map snd qs')).
 Proof. exact node_partition_independent. Qed.
+
+(* what class D relates, in pattern-matching form: grouped rows with the same key and value lists
+   that are permutations of each other; rows of any other shape only when equal *)
+Theorem c01_row_perm_spec : forall x y,
+    row_perm x y <->
+    match x, y with
+    | VPair k (VList l), VPair k' (VList l') => k = k' /\ Permutation l l'
+    | _, _ => x = y
+    end.
+Proof. exact row_perm_spec. Qed.
+(* the row-by-row flavour of the D -> D side condition on an operator body, and: an operator that
+   maps related rows to the same multiset of outputs (ew_dp) is in particular D -> D *)
+Theorem c01_ew_dd_rowwise : forall o g, ew_fn o g ->
+    (forall x y, row_perm x y -> Forall2 row_perm (g x) (g y)) -> ew_dd o.
+Proof. exact ew_dd_rowwise. Qed.
+Theorem c01_ew_dp_dd : forall o, ew_dp o -> ew_dd o.
+Proof. exact ew_dp_dd. Qed.
+(* GroupByKey on rows known only as a multiset, stated directly: for any two partitionings of the
+   same multiset of rows and any two map iteration orders the groups agree as a multiset and every
+   group's values agree as a multiset *)
+Theorem c01_gbk_from_multiset : forall sh sh' i j ps qs,
+    perm_oracle sh -> perm_oracle sh' -> Permutation (concat ps) (concat qs) ->
+    rel D (gbk_merge sh i (map gbk_local ps)) (gbk_merge sh' j (map gbk_local qs)).
+Proof. exact gbk_from_perm. Qed.
 
 (* the sequential engine is the parallel one on a single partition *)
 Theorem c01_seq_is_one_partition : forall sh i term b p,
@@ -66,7 +91,8 @@ Proof. exact classified_program_in_fragment. Qed.
 
 (* ... hence, for every classified program on which the planner's reorder pass is a no-op: the
    optimised plan run by Runner::run_collect succeeds in both modes, for every partition count,
-   and returns the identical sequence (class E) / the same multiset (class P) *)
+   and returns the identical sequence (class E) / the same multiset (class P) / the same multiset
+   of groups, each group's values as a multiset (class D) *)
 Theorem c01_program_par_equiv_seq : forall s steps t c parts,
     classify s steps = Some (t, c) ->
     reorder_noop (fuse (cs_chain (compile s steps))) ->
@@ -88,6 +114,57 @@ Example c01_example_classified :
            [SKeyBy (FMod 2); SMapValues (FAdd 1); SGroupByKey; SCombineValuesLifted CSum; SUnkey;
             SCombineGlobally CCount false (Some 1%nat)] = Some (TU, E).
 Proof. vm_compute. reflexivity. Qed.
+
+(* ---- class D: a group_by_key AFTER a step that iterated a hash map. combine_values(Sum) yields
+   its rows in map order (class P); they are re-keyed by sum mod 2 and grouped again: the order
+   INSIDE each new group depends on the first map's iteration order, so the old fragment (classes
+   E and P only) had no rule for the second barrier. Now: GroupByKey P -> D, lifted combine
+   D -> P ---- *)
+Definition c01_d_src : src :=
+  SrcVec TKV [VPair (VInt 1) (VInt 10); VPair (VInt 2) (VInt 20); VPair (VInt 1) (VInt 11);
+              VPair (VInt 3) (VInt 5); VPair (VInt 2) (VInt 2); VPair (VInt 4) (VInt 7)].
+Definition c01_d_rekey : list step :=
+  [SCombineValues CSum; SUnkey; SKeyBy (FComp FSnd (FMod 2)); SGroupByKey].
+
+Example c01_example_gbk_after_hash_classified :
+  classify c01_d_src (c01_d_rekey ++ [SCombineValuesLifted CCount]) = Some (TKV, P) /\
+  classify c01_d_src (c01_d_rekey ++ [SFilter (PLt 5); SFlatMap GElems]) = Some (TKV, P) /\
+  classify c01_d_src c01_d_rekey = Some (TKG, D).
+Proof. vm_compute. repeat split; reflexivity. Qed.
+
+(* both modes, computed (the planner lifts GroupByKey + lifted combine into one direct combine) *)
+Example c01_example_gbk_after_hash_runs :
+  run_seq c01_d_src (c01_d_rekey ++ [SCombineValuesLifted CCount])
+  = Ok [VPair (VInt 1) (VInt 3); VPair (VInt 0) (VInt 1)] /\
+  run_par c01_d_src (c01_d_rekey ++ [SCombineValuesLifted CCount]) 3
+  = Ok [VPair (VInt 1) (VInt 3); VPair (VInt 0) (VInt 1)] /\
+  map kind_of (plan c01_d_src (c01_d_rekey ++ [SCombineValuesLifted CCount]))
+  = [KSource; KCombineValues false; KStateless 2; KCombineValues false].
+Proof. vm_compute. repeat split; reflexivity. Qed.
+
+(* the second GroupByKey stays in the plan when the groups are flattened instead *)
+Example c01_example_gbk_flatten_runs :
+  let steps := c01_d_rekey ++ [SFilter (PLt 5); SFlatMap GElems] in
+  let out := [VPair (VInt 1) (VPair (VInt 1) (VInt 21)); VPair (VInt 1) (VPair (VInt 3) (VInt 5));
+              VPair (VInt 1) (VPair (VInt 4) (VInt 7)); VPair (VInt 0) (VPair (VInt 2) (VInt 22))] in
+  run_seq c01_d_src steps = Ok out /\ run_par c01_d_src steps 3 = Ok out /\
+  map kind_of (plan c01_d_src steps)
+  = [KSource; KCombineValues false; KStateless 2; KGroupByKey; KStateless 2].
+Proof. vm_compute. repeat split; reflexivity. Qed.
+
+(* class D is exactly what holds: with another map iteration order (here: reversed) the raw chain
+   ending in the second GroupByKey returns the same groups with the values inside a group in
+   another order - related by `rel D`, not by Permutation *)
+Example c01_example_class_d_is_tight :
+  exec_par (fun _ l => rev l) TKG (cs_chain (compile c01_d_src c01_d_rekey)) 2
+  = Ok [VPair (VInt 0) (VList [VPair (VInt 2) (VInt 22)]);
+        VPair (VInt 1) (VList [VPair (VInt 4) (VInt 7); VPair (VInt 3) (VInt 5);
+                               VPair (VInt 1) (VInt 21)])] /\
+  exec_seq id_sh TKG (cs_chain (compile c01_d_src c01_d_rekey))
+  = Ok [VPair (VInt 1) (VList [VPair (VInt 1) (VInt 21); VPair (VInt 3) (VInt 5);
+                               VPair (VInt 4) (VInt 7)]);
+        VPair (VInt 0) (VList [VPair (VInt 2) (VInt 22)])].
+Proof. vm_compute. split; reflexivity. Qed.
 
 (* non-vacuity: a concrete plan with a barrier, a global combine and a join is in the fragment *)
 Example c01_example_in_fragment : exists chain t c,
